@@ -290,6 +290,38 @@ def check_C03(tier):
         chk.evaluations += len(h.runs)
         jd(h, None)
         chk.nontrivial.add("hist:CCAT:" + h.label)
+    # crash during recovery, then a re-run WITHOUT cleanup: first run killed right after the audit files were written (they stay at the
+    # final location), temp dirs removed, recovery run killed while the command has written part of its output, started again: it must
+    # stop with a non-zero status and whatever it leaves at a final path must be complete
+    rec = FC(); rec["name"] = "FCREC"; rec["ctl"] = {"a.sleep": "0.7"}; rec["mkdirs"] = ["o"]
+    hs = []
+    for spec in ("audit.done#1", "exec.ensure#1", "fin.rename.begin#1"):
+        h = fs.History(rec, [("run", {"VERIF_CRASH": spec}), ("cleanup",), ("kill", 0.35), ("run", None)],
+                       label="crash %s, cleanup, recovery run killed after a partial write, run again without cleanup" % spec); h.accept = False
+        hs.append(h)
+    def rec_judge(h, exp):
+        last, pr = h.runs[-1], h.snaps[-1]
+        if last.timeout or last.deadlock:
+            R.report("C03", "re-run with leftovers in place hangs (history %s)" % h.label, h)
+        elif last.rc == 0 or last.completed:
+            R.report("C03", "re-run with a leftover temp dir in place exited with status %s, completed=%s (history %s)" % (last.rc, last.completed, h.label), h)
+        bad = [f for f, k in pr["kind"].items() if k == "partial"]
+        if bad:
+            R.report("C03", "the re-run that stopped on leftovers finalized an incomplete file before stopping: %s (history %s)" % (bad, h.label), h)
+    R.histories(rec, hs, judge=rec_judge)
+    # a task WITHOUT outputs (the leaf / driver process) killed while it executes: its temp dir is a leftover like any other
+    leaf = zoo.Z16(n=1, mx=1); leaf["name"] = "Z16L"; leaf["ctl"] = {"leaf.extra": "report_%k.log"}
+    hs = []
+    for spec in ("cmd.start@leaf|#1", "exec.acquired@leaf|#1"):
+        h = fs.History(leaf, [("run", {"VERIF_CRASH": spec}), ("run", None)], label="crash %s (task without outputs), run again without cleanup" % spec); h.accept = False; h.exp = None
+        hs.append(h)
+    for h in pmap(fs.run_history, hs, workers=2):
+        chk.evaluations += len(h.runs)
+        last = h.runs[-1]
+        had = any(p.startswith("_scipipe_tmp.leaf") for p in h.runs[0].snapshot)
+        if had and (last.rc == 0 or last.completed):
+            R.report("C03", "re-run with the leftover temp dir of a task without outputs in place exited with status %s, completed=%s (history %s)" % (last.rc, last.completed, h.label), h)
+        elif had: chk.nontrivial.add("hist:Z16L:" + h.label)
     # random external kills while slow commands run
     inst = FB(); inst["ctl"] = {"ALL.sleep": "0.15"}
     hs = []
